@@ -103,6 +103,19 @@ const (
 	c32KWrongService
 	c32KQuery
 	c32KSigned
+	c32KSignedRSA // turned into c32KSigned with r.rsa set
+)
+
+// variants of c32KSignedRSA (PublicKeyAuthAlgorithms = {ssh-ed25519, rsa-sha2-256})
+const (
+	c32RGood      = iota // algorithm and format rsa-sha2-256, genuine
+	c32RFmtSHA1          // algorithm rsa-sha2-256, genuine SHA-1 signature with format ssh-rsa (format not allowed)
+	c32RFmt512           // algorithm rsa-sha2-256, genuine signature with format rsa-sha2-512 (format not allowed)
+	c32RAlgo512          // algorithm and format rsa-sha2-512 (algorithm not allowed)
+	c32RAlgoSHA1         // algorithm ssh-rsa (not allowed), format rsa-sha2-256
+	c32RGarbage          // no real signature
+	c32RFmtEd            // format ssh-ed25519 (allowed but not an RSA format)
+	c32RWrongSess        // genuine signature for another session identifier
 )
 
 // variants of a signed publickey request (kind c32KSigned) / of a query (0, 7, 5 only)
@@ -163,6 +176,8 @@ type c32Req struct {
 	signedData    []byte
 	sigBlob       []byte
 	verified      int
+	rsa           bool   // the RSA key is offered
+	wantAlgo      string // the one algorithm / signature format acceptable for the offered key under the configuration
 }
 
 type c32Call struct {
@@ -270,12 +285,48 @@ func (w *c32World) newReq(idx int) *c32Req {
 	case c32KWrongService:
 		r.method = "none"
 		r.service = "x"
+	case c32KSignedRSA:
+		// signed request with the RSA key (index 2); PublicKeyAuthAlgorithms allows rsa-sha2-256 only
+		r.kind, r.rsa, r.key = c32KSigned, true, 2
+		r.method, r.hasSig = "publickey", true
+		r.keyBlob = c32RSABlob()
+		r.algo, r.sigFmt, r.wantAlgo = KeyAlgoRSASHA256, KeyAlgoRSASHA256, KeyAlgoRSASHA256
+		switch r.variant {
+		case c32RFmtSHA1:
+			r.sigFmt = KeyAlgoRSA
+		case c32RFmt512:
+			r.sigFmt = KeyAlgoRSASHA512
+		case c32RAlgo512:
+			r.algo, r.sigFmt = KeyAlgoRSASHA512, KeyAlgoRSASHA512
+		case c32RAlgoSHA1:
+			r.algo = KeyAlgoRSA
+		case c32RFmtEd:
+			r.sigFmt = KeyAlgoED25519
+		}
+		r.signedData = c32RefSigned(w.sid, r.user, r.service, r.algo, r.keyBlob)
+		if r.variant == c32RWrongSess {
+			sid2 := append([]byte(nil), w.sid...)
+			sid2[0] ^= 1
+			r.signedData = c32RefSigned(sid2, r.user, r.service, r.algo, r.keyBlob)
+		}
+		r.sigReal = r.variant != c32RGarbage
+		r.genuine = r.sigReal && r.variant != c32RWrongSess
+		r.signKey = r.keyBlob
+		if verifrt.Symbolic() || !r.sigReal {
+			r.sigBlob = make([]byte, 256)
+			for i := range r.sigBlob {
+				r.sigBlob[i] = byte(idx + 1)
+			}
+		} else {
+			r.sigBlob = c32SignRSA(r.sigFmt, r.signedData)
+		}
 	case c32KQuery, c32KSigned:
 		r.method = "publickey"
 		if w.p.keys > 1 {
 			r.key = verifrt.Choose(0, 1)
 		}
 		r.keyBlob = c32KeyBlob(r.key)
+		r.wantAlgo = KeyAlgoED25519
 		r.algo, r.sigFmt = KeyAlgoED25519, KeyAlgoED25519
 		r.hasSig = r.kind == c32KSigned
 		switch r.variant {
@@ -569,8 +620,8 @@ func (w *c32World) satisfied(r *c32Req, partial bool) *c32Call {
 	case c32KSigned:
 		verifrt.Assert(r.hasSig && r.sigReal, "publickey accepted only with a signature")
 		verifrt.Assert(r.genuine, "signature is by the offered key over the RFC 4252 data of this request, user and session")
-		verifrt.Assert(r.algo == KeyAlgoED25519, "algorithm is one of algorithmsForKeyFormat(key type)")
-		verifrt.Assert(r.sigFmt == KeyAlgoED25519, "signature format allowed and compatible with the algorithm")
+		verifrt.Assert(r.algo == r.wantAlgo, "algorithm is allowed and one of algorithmsForKeyFormat(key type)")
+		verifrt.Assert(r.sigFmt == r.wantAlgo, "signature format allowed and compatible with the algorithm")
 		if verifrt.Symbolic() {
 			verifrt.Assert(r.verified > 0, "Verify was called for the accepted request")
 		}
@@ -711,6 +762,25 @@ func Verif_C32_Auth1() {
 	c32Run(c32Params{k: 1, alphabet: c32Alphabet(1), keys: 2, mask: 7,
 		noClientAuth: cfg == 1 || cfg == 2, noneCb: cfg == 2, vpk: cfg == 3,
 		verdicts: []int{c32VAccept, c32VReject, c32VPartialPw, c32VPartialPkK, c32VAcceptNil, c32VPartialBad}, maxTries: -1})
+}
+
+// Verif_C32_AuthRSA: one request (AuthRSA2: two) over {password, publickey query (ed25519), signed
+// requests with the RSA key in 8 variants: genuine rsa-sha2-256; genuine signatures whose format
+// (ssh-rsa = SHA-1, rsa-sha2-512) is not in PublicKeyAuthAlgorithms; disallowed algorithms;
+// garbage; non-RSA format; wrong session}, plain and VerifiedPublicKeyCallback configurations.
+func Verif_C32_AuthRSA() { c32AuthRSA(1) }
+
+// Verif_C32_AuthRSA2: as AuthRSA with exactly two requests (slow: the 2048-bit key is parsed and
+// marshalled by math/big inside the engine on every path).
+func Verif_C32_AuthRSA2() { c32AuthRSA(2) }
+
+func c32AuthRSA(k int) {
+	a := []int{c32A(c32KPassword, 0), c32A(c32KQuery, c32SGood)}
+	for v := c32RGood; v <= c32RWrongSess; v++ {
+		a = append(a, c32A(c32KSignedRSA, v))
+	}
+	c32Run(c32Params{k: k, alphabet: a, keys: 1, mask: 3, vpk: verifrt.Choose(0, 1) == 1,
+		verdicts: []int{c32VAccept, c32VReject, c32VPartialPkK}, maxTries: -1})
 }
 
 // Verif_C32_Auth2Plain: two requests, core alphabet, two keys, callbacks password + publickey +
